@@ -28,7 +28,10 @@ MUnwrap(s, dev) == IF s.poison \/ (s.refs > 1 /\ "UnwrapSharedContext" \in dev)
 (* at once (DReg). Repaired ("UnboundedJoin" off): the wait is bounded, a thread that does not end is left behind.    *)
 MSetFlag(s, dev) == IF "SessionIgnoresFlag" \in dev THEN [s EXCEPT !.m = "join_dbg", !.flag = TRUE]
                     ELSE [s EXCEPT !.m = "join_dbg", !.flag = TRUE, !.sig = s.sig \/ s.handler, !.handler = FALSE, !.inv = TRUE]
-MJoinEn(s, dev) == s.m = "join_dbg" /\ (s.d \in {"ended", "dead"} \/ "UnboundedJoin" \notin dev)
+(* The bounded wait is a time-out in the code (2 s). Without clocks: every step of the debug thread that is not blocked is taken in  *)
+(* time (woken accept, signalled session), so the only thread the bound ever leaves behind is one that is BUSY inside a request that *)
+(* does not return. "JoinGivesUpEarly" (hypothetical) lets join return while the thread could still end.                             *)
+MJoinEn(s, dev) == s.m = "join_dbg" /\ (s.d \in {"ended", "dead"} \/ ("UnboundedJoin" \notin dev /\ (s.d = "busy" \/ "JoinGivesUpEarly" \in dev)))
 MJoin(s, dev) == IF s.d = "dead" /\ "DeadThreadFailsJoin" \in dev THEN [s EXCEPT !.m = "panicked", !.exit = 101]     \* join().expect(..) on a panicked thread
                 ELSE [s EXCEPT !.m = "done", !.exit = 0]
 
